@@ -453,8 +453,18 @@ class P11(object):
             return h.value
         return 0 if (rv != 0 and h.value == seed) else h.value
 
+    def _order(self, attrs):
+        """PKCS#11 gives the order of the entries of a template no meaning (as long as no attribute is named twice): every
+        other object-making call gets its template in reverse order - CKA_CLASS last, CKA_PRIVATE / CKA_TOKEN before it."""
+        attrs = list(attrs)
+        self._ocalls = getattr(self, "_ocalls", 0) + 1
+        types = [a[0] for a in attrs]
+        if len(attrs) >= 3 and len(set(types)) == len(types) and self._ocalls % 2 == 0:
+            attrs.reverse()
+        return attrs
+
     def create_object(self, s, attrs):
-        t = Template(attrs)
+        t = Template(self._order(attrs))
         h, seed = self._hvar()
         rv = self.lib.C_CreateObject(s, t.ptr, t.n, C.byref(h))
         return rv, self._hout(rv, h, seed)
@@ -553,7 +563,7 @@ class P11(object):
 
     # ---- keys
     def generate_key(self, s, mech, attrs):
-        t = Template(attrs)
+        t = Template(self._order(attrs))
         h, seed = self._hvar()
         rv = self.lib.C_GenerateKey(s, mech.ptr, t.ptr, t.n, C.byref(h))
         return rv, self._hout(rv, h, seed)
@@ -584,14 +594,14 @@ class P11(object):
         return rv, (raw[:n.value] if rv == 0 and n.value <= size else None), n.value
 
     def unwrap_key(self, s, mech, uk, blob, attrs):
-        t = Template(attrs)
+        t = Template(self._order(attrs))
         h, seed = self._hvar()
         bb = buf_ptr(blob)
         rv = self.lib.C_UnwrapKey(s, mech.ptr, uk, bb, len(blob), t.ptr, t.n, C.byref(h))
         return rv, self._hout(rv, h, seed)
 
     def derive_key(self, s, mech, base, attrs):
-        t = Template(attrs)
+        t = Template(self._order(attrs))
         h, seed = self._hvar()
         rv = self.lib.C_DeriveKey(s, mech.ptr, base, t.ptr, t.n, C.byref(h))
         return rv, self._hout(rv, h, seed)
